@@ -61,6 +61,12 @@ fn histories<'a>(env: &'a Env, thorough: bool) -> Vec<History<'a>> {
         let (sc, regs) = mk_index(wi, si, 5);
         v.push(History { name: format!("sync/{}", sc.name), sc: Box::new(sc), devs: vec![], regs, final_chain: 0 });
     }
+    // H-sync with several matched-blocks records pending at once (filter batches of 2, block
+    // bodies slower than everything else)
+    {
+        let (sc, regs) = mk_index(0, 1, 10_002);
+        v.push(History { name: format!("sync-slow-blocks/{}", sc.name), sc: Box::new(sc), devs: vec![], regs, final_chain: 0 });
+    }
     // H-set-scripts: a partial set_scripts while matched blocks are pending
     {
         let (sc, regs) = mk_index(0, 1, 5);
